@@ -1,7 +1,7 @@
 (* C02: every transmitted frame passes the independent validator wf_tx; solicited only; junk independent; link to the buffer-level model.
    Statements only: each theorem restates the full type of a lemma proved in coq/proofs and is closed by
    `exact`; Print Assumptions beneath.  Regenerate with bin/genprops.py after a lemma changes. *)
-From LLTD Require Import BlockFun BlockNominal SpecTx TxProofs.
+From LLTD Require Import BlockFun BlockNominal SystemRefinement SpecTx TxProofs.
 
 Theorem C02_every_frame_well_formed :
   forall (ctx : N) (c : pcfg) (g : gcfg) (mtu : N),
@@ -68,3 +68,21 @@ Theorem C02_buffer_level_model_refines :
   ledger_frame bl bb (fst (f_step ctx c g mtu s buf)) w' /\ w_now w' = w_now w.
 Proof. exact step_nominal. Qed.
 Print Assumptions C02_buffer_level_model_refines.
+
+Theorem C02_registry_level_refines :
+  forall (junk ctx : N) (c : pcfg) (g : gcfg) (mtu : N) (r : registry) (buf : list N)
+  (w : world) (bl : nat) (bb : N),
+  c_mtu c = Some mtu ->
+  (576 <= mtu)%N ->
+  (mtu <= 9216)%N ->
+  (mtu <= c_rxsize c)%N ->
+  length buf = o (c_rxsize c) ->
+  BlockSafe.ledger_reg bl bb r w ->
+  exists (r' : registry) (w' : world),
+  parse_frame no_fail no_fail junk ctx c g r buf w = Ok r' w' /\
+  reg_state r' ctx = fst (f_step ctx c g mtu (reg_state r ctx) buf) /\
+  (forall c2 : N, c2 <> ctx -> reg_state r' c2 = reg_state r c2) /\
+  w_trace w' = rev (snd (f_step ctx c g mtu (reg_state r ctx) buf)) ++ w_trace w /\
+  BlockSafe.ledger_reg bl bb r' w' /\ w_now w' = w_now w.
+Proof. exact frame_nominal. Qed.
+Print Assumptions C02_registry_level_refines.
